@@ -43,7 +43,7 @@ CONTRACTS = [
         raises={},
         replay=replay_bs,
         props=["C14"],
-        assumes=["lemma M3 (identity outside a unitary 2x2 block is unitary): trusted mathematics"],
+        assumes=["lemma M3bs (identity outside the two modes + the four block identities => unitary): kernel-checked by Lean 4 + Mathlib, vf/lemmas/lean/Lemmas.lean"],
     ),
     Contract(
         target=f"{T}:TopHat.value",
